@@ -557,8 +557,24 @@ func (d *vc16Daemon) serve(w http.ResponseWriter, r *http.Request, k vc16Call, s
 			return
 		}
 		deadline := time.Now().Add(60 * d.pinTimeout)
-		for time.Now().Before(deadline) {
-			fmt.Fprintf(w, `{"Progress":%d}`+"\n", 1)
+		// the count never exceeds its first value; variants: the same object again and again (0), objects without a
+		// progress number in between (1), lower numbers in between (2), a higher start then both (3): no progress in any
+		hi := 1 + st.Var%4
+		for n := 0; time.Now().Before(deadline); n++ {
+			switch {
+			case st.Var%4 == 0 || n%2 == 0:
+				fmt.Fprintf(w, `{"Progress":%d}`+"\n", hi)
+			case st.Var%4 == 1:
+				fmt.Fprint(w, `{}`+"\n")
+			case st.Var%4 == 2:
+				fmt.Fprintf(w, `{"Progress":%d}`+"\n", 0)
+			default:
+				if n%4 == 1 {
+					fmt.Fprint(w, `{"Pins":null}`+"\n")
+				} else {
+					fmt.Fprintf(w, `{"Progress":%d}`+"\n", hi-1)
+				}
+			}
 			vc16Flush(w)
 			select {
 			case <-r.Context().Done():
